@@ -105,12 +105,27 @@ def cvc5_unsat(smt2, timeout_s):
 
 
 # ----------------------------------------------------------------------------- property check
+def _glob(pat, s):
+    parts = pat.split('*')
+    if len(parts) == 1:
+        return pat == s
+    if not s.startswith(parts[0]) or not s.endswith(parts[-1]):
+        return False
+    pos = len(parts[0])
+    for p in parts[1:-1]:
+        i = s.find(p, pos)
+        if i < 0:
+            return False
+        pos = i + len(p)
+    return len(s) - len(parts[-1]) >= pos
+
+
 def match_known(known, prop, label, detail=''):
     for k in known:
         if k.get('property') != prop or k.get('status') != 'known':
             continue
         for m in k.get('match', []):
-            if m == label or (m.endswith('*') and label.startswith(m[:-1])):
+            if _glob(m, label):
                 return k
     return None
 
